@@ -226,6 +226,7 @@ pub fn campaign(ctx: &crate::core::Ctx, report: &mut crate::core::Report, target
         } else if let Ok(bytes) = std::fs::read(&path) {
             crate::crumb::case(&format!("fuzz:{}", target), &serde_json::json!({"hex": refcodec::hex(&bytes)}));
             let fails: Vec<Failure> = entry(target, &bytes).into_iter().filter(|f| property_of(&f.sig) == ctx.id || (ctx.id == "C03" && f.sig.contains("/panic/"))).collect();
+            crate::crumb::clear();
             let case = serde_json::json!({"hex": refcodec::hex(&bytes), "artifact": path});
             if let Some(f) = fails.first() {
                 if !ctx.known.is_known(&f.sig) {
